@@ -536,7 +536,8 @@ impl<'a> Lowerer<'a> {
         let body = if self.arena.kind(body_node) == Some(SyntaxKind::BlockExpr) {
             // Flatten block body to then-expression for function definitions
             let stmts = self.lower_block_statements(body_node);
-            into_then_expr(&stmts).unwrap_or_else(|| Expr::Error.into_id_without_span())
+            // an empty body `{ }` is the unit value, like an empty block expression
+            into_then_expr(&stmts).unwrap_or_else(|| Expr::Block(None).into_id_without_span())
         } else {
             self.lower_expr(body_node)
         };
@@ -1831,8 +1832,9 @@ pub fn parse_to_expr(
         crate::compiler::parser::parser_errors_to_reportable(source, path.clone(), parse_errs);
 
     if prog.statements.is_empty() {
+        // an empty source (or comments only) is a program whose value is unit, not a syntax error
         return (
-            Expr::Error.into_id_without_span(),
+            Expr::Block(None).into_id_without_span(),
             crate::ast::program::ModuleInfo::new(),
             errs,
         );
